@@ -111,6 +111,7 @@ class Run:
         ns = {n: _tagged(param)() for n in NAMES}
         ns['dyn'] = param.Number(default=0.5)       # may hold a value generator; never watched, only triggered
         ns['ev'] = param.Event()                    # announced by trigger at quiet moments; has a watcher of its own
+        ns['aux'] = param.Parameter(default=None)   # nobody watches it: assigned inside discard_events blocks by callbacks
         self.ev_log = []
         # in some instance-level runs the last parameter is a constant: the only assignments it accepts are re-assignments
         # of the very object it holds (and trigger); they are announced like any other
@@ -228,6 +229,10 @@ class Run:
         if 'cascade' in self.feats and self.level == 'instance' and rng.random() < 0.06:
             # a callback that takes a copy of the object it is called for (must not disturb the dispatch in progress)
             w['actions'].insert(rng.randint(0, len(w['actions'])), ('copy',))
+        if 'cascade' in self.feats and rng.random() < 0.1:
+            # a callback that makes one assignment nobody is to hear about (to a parameter nobody watches here), after or
+            # before its other assignments: what is waiting to be announced at that moment stays waiting
+            w['actions'].insert(rng.randint(0, len(w['actions'])), ('discarded-set',))
         if 'cb_unwatch' in self.feats and rng.random() < 0.12:
             w['actions'].append(('unwatch_self',) if rng.random() < 0.5 else ('unwatch_other',))
         grp = [w]
@@ -310,6 +315,10 @@ class Run:
                         # (deep copies only: a shallow copy.copy() shares the private namespace with the original and is not
                         #  among the copy mechanisms any of the properties speaks about)
                         copy.deepcopy(self.o)
+                    elif act[0] == 'discarded-set':
+                        self.stats['discard_blocks_inside_callbacks'] = self.stats.get('discard_blocks_inside_callbacks', 0) + 1
+                        with self.P.discard_events(self.o):
+                            self.o.aux = ('quiet', w['calls'])
                     elif act[0] == 'unwatch_self':
                         self.do_unwatch(w)
                     elif act[0] == 'unwatch_other':
